@@ -56,7 +56,7 @@ man = {
                 {"name": "apalache", "path": "apalache-mc", "serves_properties": [], "kind_free_text": "symbolic checker for unbounded integer laws"}],
     "checks": checks,
     "not_applicable": na,
-    "notes": "Specifications live in /verif/specs (flat directory). ./check <ID> --tier quick|thorough; exit 0 held, 1 violation, 2 machinery failure. Known findings: /verif/known_findings.json.",
+    "notes": "Specifications live in /verif/specs (flat directory). ./check <ID> --tier quick|thorough; exit 0 held, 1 violation, 2 machinery failure. Known findings: /verif/known_findings.json. Extra specification coverage beyond the listed properties (not claimed as checks): ./check X01 (specs/Redecl.tla, redeclaration rules of cdef(); evidence in /verif/evidence/extra/).",
 }
 json.dump(man, open(os.path.join(V, "MANIFEST.json"), "w"), indent=1)
 print("MANIFEST: %d checks, %d not_applicable" % (len(checks), len(na)))
